@@ -4,6 +4,8 @@ from __future__ import annotations
 
 import ast
 
+from typing import Any
+
 from ..pm import AnalysisError, unparse
 from ..report import Check
 from ..sym import Resolver, Term, path_of, show, walk
@@ -24,7 +26,7 @@ EXPLANATION = (
     "conjunction/disjunction wiring of all seven activation methods"
 )
 ASSUMPTIONS = ["decides structure and wiring of antecedent evaluation; the numeric value of a particular antecedent is not decided"]
-FLOORS = {"PD": 4, "T1": 2, "G1": 1, "W1": 1, "P9": 7, "P3": 3, "P2": 14, "H1": 2, "F1": 1, "F-end": 1, "X1": 2, "X7": 2}
+FLOORS = {"PD": 4, "T1": 2, "W1": 1, "P9": 7, "P3": 3, "P2": 14, "H1": 2, "F1": 1, "F-end": 1, "X1": 2}
 
 
 def run(check: Check) -> None:
@@ -43,9 +45,7 @@ def run(check: Check) -> None:
         ok = a.associativity < 0 and o.associativity < 0 and a.arity == 2 and o.arity == 2 and a.kind == o.kind == "Operator"
         check.require(ok, "T1", "FunctionFactory/and-or-left-binary", "`and` and `or` are left-associative binary operators"
                       if ok else f"and: assoc {a.associativity} arity {a.arity}; or: assoc {o.associativity} arity {o.arity}", f"{fac.file}:{o.lineno}")
-    shunting.g1_pop_rule(check)
     pushdown.infix_to_postfix(check)
-    x7_operand_queue(check)
     w1_operand_order(check)
     c16.antecedent_automaton(check)
     h1_hedge_storage(check)
@@ -137,25 +137,84 @@ def h1_hedge_storage(check: Check) -> None:
 
 
 def x1_format_infix(check: Check) -> None:
+    """X1 [E]: `Function.format_infix` is interpreted abstractly (sa/absexec.py) with the operator names of the *extracted* registry as
+    the registered operators: the alphabet around which spaces are inserted must be those names minus the words `and`/`or` plus
+    `(`, `)`, `,`, and in the alternation a symbol must precede every proper prefix of itself (`**` before `*`)."""
+    from ..absexec import AbsExec, FString, Internal, MObj, Opaque, Raised, Unknown, _Return
+
     p = check.program
     fn = p.func("Function.format_infix")
     check.analysed(fn)
-    r = Resolver(p, fn)
-    cfg = r.cfg
-    sorts = [(n, c) for n, c in cfg.all_calls() if isinstance(c.func, ast.Name) and c.func.id == "sorted"]
-    if not sorts:
-        raise AnalysisError("Function.format_infix: the operator alphabet is not sorted before building the pattern")
-    n, c = sorts[0]
-    t = r.term(c.args[0], n)
-    AND, OR = ("global", "fuzzylite.rule.Rule.AND"), ("global", "fuzzylite.rule.Rule.OR")
-    removed = t[0] == "binop" and t[1] == "-" and t[3][0] == "set" and set(t[3][1]) == {AND, OR}
-    punct = any(s[0] == "set" and {x[1] for x in s[1] if x[0] == "const"} >= {"(", ")", ","} for s in walk(t))
-    ops = any(s[0] == "call" and s[1][0] == "attr" and s[1][2] == "operators" for s in walk(t))
-    check.require(removed and punct and ops, "X1", "Function.format_infix/alphabet",
-                  "spaces are inserted around every registered operator except the words `and`/`or`, and around ( ) ,"
-                  if removed and punct and ops else f"spacing alphabet is {show(t)}", loc(fn, n))
-    kw = {k.arg: k.value for k in c.keywords}
-    longest_first = ("reverse" in kw and isinstance(kw["reverse"], ast.Constant) and kw["reverse"].value is True) or \
-        ("key" in kw and unparse(kw["key"]) in ("len",) and "reverse" in kw)
-    check.require(longest_first, "X1", "Function.format_infix/longest-first",
-                  "multi-character operators are tried before their prefixes (`**` before `*`)", loc(fn, n))
+    node = fn.analysis_node
+    ops = sorted(e.name for e in function_factory(p) if e.kind == "Operator")
+    seen: dict[str, Any] = {}
+
+    def sub(ex_, e, recv, args, kw):
+        order = ["pattern", "repl", "string", "count", "flags"]
+        a = dict(zip(order, args))
+        a.update(kw)
+        seen.setdefault("patterns", []).append(a.get("pattern"))
+        return Opaque("text")
+
+    def join(ex_, e, recv, args, kw):
+        return ("joined", recv, tuple(ex_.iterate(args[0], e)))
+
+    def operators(ex_, e, recv, args, kw):
+        return {name: Opaque("element") for name in ops}
+
+    hooks = {"method:sub": sub, "method:join": join, "method:operators": operators, "method:escape": lambda ex_, e, recv, args, kw: ("escaped", args[0]),
+             "method:compile": lambda ex_, e, recv, args, kw: Opaque("pattern")}
+    ex = AbsExec(fn.qualname, hooks)
+    params = [a.arg for a in node.args.args]
+    rule_ns = MObj("class", {"AND": "and", "OR": "or", "IS": "is", "IF": "if", "THEN": "then", "WITH": "with"})
+    env: dict[str, Any] = {params[0]: Opaque("cls"), "re": Opaque("re"), "Rule": rule_ns}
+    for nm in params[1:]:
+        env[nm] = Opaque("formula")
+    # `from .rule import Rule` inside the function must not shadow the model of the keyword constants
+    body = [st for st in node.body if not (isinstance(st, ast.ImportFrom) and any(a.name == "Rule" for a in st.names))]
+    try:
+        ex.block(body, env)
+    except _Return:
+        pass
+    except (Raised, Internal) as err:
+        raise AnalysisError(f"Function.format_infix: abstract interpretation ends in {err.cls}") from None
+    except Unknown as u:
+        raise AnalysisError(str(u)) from None
+
+    def alternation(pat: Any) -> list[str] | None:
+        """Symbols of `(a|b|c)` built as an f-string / concatenation around "|".join(escaped symbols)."""
+        found: list[Any] = []
+
+        def rec(x: Any) -> None:
+            if isinstance(x, tuple) and x and x[0] == "joined":
+                found.append(x)
+            elif isinstance(x, FString):
+                for y in x.parts:
+                    rec(y)
+            elif isinstance(x, (tuple, list)):
+                for y in x:
+                    rec(y)
+
+        rec(pat)
+        for j in found:
+            if j[1] == "|":
+                out = []
+                for it in j[2]:
+                    out.append(it[1] if isinstance(it, tuple) and it and it[0] == "escaped" else it)
+                if all(isinstance(o, str) for o in out):
+                    return out
+        return None
+
+    alts = [a for a in (alternation(pt) for pt in seen.get("patterns", [])) if a is not None]
+    if not alts:
+        raise AnalysisError("Function.format_infix: the alternation of symbols handed to re.sub was not recognised")
+    got = alts[0]
+    want = (set(ops) - {"and", "or"}) | {"(", ")", ","}
+    ok = set(got) == want and len(got) == len(set(got))
+    check.require(ok, "X1", "Function.format_infix/alphabet",
+                  "spaces are inserted around every registered operator except the words `and`/`or`, and around ( ) ," if ok else
+                  f"spacing alphabet differs from the registered operators minus and/or plus ( ) ,: extra {sorted(set(got) - want)}, missing {sorted(want - set(got))}", loc(fn))
+    shadowed = [(a, b) for i, a in enumerate(got) for b in got[i + 1:] if b != a and b.startswith(a)]
+    check.require(not shadowed, "X1", "Function.format_infix/longest-first",
+                  "multi-character operators are tried before their prefixes (`**` before `*`)" if not shadowed else
+                  f"`{shadowed[0][0]}` is tried before `{shadowed[0][1]}`, of which it is a prefix: `{shadowed[0][1]}` is split into two tokens", loc(fn))
